@@ -34,9 +34,9 @@ DET = {
  'C01-1': (False, 'C01', '', 'quick', 'GeometryGraph::insert_boundary_point needs the BTreeMap node map (CBMC timeout); only the mod-2 rule on CoordNode / determine_boundary is under contract'),
  'C01-2': (False, 'C01', '', 'quick', 'NodeMap key ordering (-0.0 vs 0.0) is not under contract'),
  'C01-3': (True, 'C02', 'Verus obligation C02.V.polygon_position (postcondition `is_inside` may only be set) -- reported by the C02 check; K twin c02_k_polygon_with_hole_pos added afterwards', 'quick', 'the C01 check itself does not cover it'),
- 'C03-1': (False, 'C03', '', 'quick', 'the check ends UNDECIDED (exit 2): c03_k_float_kernel_is_exact times out once the kernel contains float products; on the integer lattice the weakened filter is still exact, so a completed run would pass -- off-lattice f64 input is outside the K harnesses'),
- 'C03-2': (False, 'C03', '', 'quick', 'winding_order harnesses run at i16 (where SimpleKernel is the right kernel); the float instance needs off-lattice input'),
- 'C03-3': (None, 'C02', 'c02_k_tri_intersects_coord', 'quick', 'not in the C03 harness list; expected under C02'),
+ 'C03-1': (True, 'C03', 'c03_k_hard_triple_7, c03_k_hard_triple_12 (deceptive literal triples through the real robust kernel)', 'quick', 'missed by the first run (lattice harness timed out -> UNDECIDED); literal ill-conditioned triples added afterwards'),
+ 'C03-2': (True, 'C03', 'c03_k_hard_triple_* (ring winding order of the literal triples)', 'quick', 'missed by the first run; literal triples added afterwards'),
+ 'C03-3': (True, 'C03', 'c02_k_tri_intersects_coord', 'quick', 'missed by the first run; harness added to the C03 list afterwards (it was already in C02)'),
  'C04-1': (False, 'C04', '', 'quick', 'unary_union fill-rule selection calls into i_overlay (assumed contract); not under contract'),
  'C04-2': (False, 'C04', '', 'quick', 'boolean_op call site (ContourFilter) is not under contract'),
  'C04-3': (False, 'C04', '', 'quick', 'clip call site flags are not under contract'),
@@ -46,15 +46,15 @@ DET = {
  'C19-1': (False, 'C19', '', 'quick', 'GeometryCollection::bounding_rect: recursive Geometry delegation does not finish in CBMC'),
  'C19-2': (None, 'C19', 'c19_k_min_polygon_try_map_error_in_hole', 'quick', 'missed by the first run; harness made tractable (concrete failure index, literal data) afterwards'),
  'C19-3': (False, 'C19', '', 'quick', 'GeometryCollection::exterior_coords_iter: recursive Geometry delegation does not finish in CBMC'),
- 'C08-1': (False, 'C08', '', 'quick', 'quick_hull is not under contract (CBMC OOM / timeout from 4 symbolic points)'),
- 'C08-2': (False, 'C08', '', 'quick', 'graham_hull is not under contract'),
- 'C08-3': (False, 'C08', '', 'quick', 'hull_set is not under contract'),
+ 'C08-1': (True, 'C08', 'c08_k_quick_hull_menu_0_rot0', 'quick', 'missed by the first run (helpers only); hull contract on literal menus added afterwards'),
+ 'C08-2': (True, 'C08', 'c08_k_graham_hull_menu_{0,1,5}_rot*', 'quick', 'missed by the first run; hull contract on literal menus added afterwards'),
+ 'C08-3': (None, 'C08', 'c08_k_quick_hull_large_i64', 'quick', 'missed by the first two runs; large-i64 literal set added afterwards'),
  'C10-1': (False, 'C10', '', 'quick', 'monotone sweep is not under contract'),
  'C10-2': (False, 'C10', '', 'quick', 'Delaunay snapping is not under contract'),
  'C10-3': (False, 'C10', '', 'quick', 'monotone builder is not under contract'),
  'C07-1': (False, 'C07', '', 'quick', 'Polygon-Polygon distance (R-tree search, hole branch) is not under contract'),
  'C07-2': (False, 'C07', '', 'quick', 'nearest_neighbour_distance (R-tree) is not under contract'),
- 'C07-3': (False, 'C07', '', 'quick', 'geo_types::private_utils::line_string_contains_point is not under contract'),
+ 'C07-3': (None, 'C07', 'c07_k_line_string_contains_point_axis', 'quick', 'missed by the first run; harness added afterwards'),
  'C09-1': (False, 'C09', '', '-', 'C09 is not applicable (no check)'),
  'C09-2': (False, 'C09', '', '-', 'C09 is not applicable (no check)'),
  'C09-3': (False, 'C09', '', '-', 'C09 is not applicable (no check)'),
@@ -89,3 +89,17 @@ for sid in sorted(os.listdir(os.path.join(HERE, 'seeded'))):
 json.dump([{k: r[k] for k in ('seed', 'detected', 'checked_under', 'detected_by', 'tier', 'remark')} for r in rows], open(os.path.join(HERE, 'seeded', 'SUMMARY.json'), 'w'), indent=1)
 n = len(rows); y = len([r for r in rows if r['detected'] is True]); u = len([r for r in rows if r['detected'] is None])
 print('%d seeds, %d detected, %d pending re-test, %d missed' % (n, y, u, n - y - u))
+
+# ---- DESIGN.md table
+dp = os.path.join(HERE, 'DESIGN.md')
+doc = open(dp).read()
+b, e = '<!-- SEEDS-TABLE-BEGIN -->', '<!-- SEEDS-TABLE-END -->'
+if b in doc and e in doc:
+    lines = ['| seed | detected | by (check: obligation) | tier | remark |', '|---|---|---|---|---|']
+    for r in rows:
+        d = {True: 'yes', False: 'NO', None: 'pending'}[r['detected']]
+        lines.append('| %s | %s | %s%s | %s | %s |' % (r['seed'], d, (r['checked_under'] + ': ') if r['detected_by'] else '', r['detected_by'], r['tier'], r['remark']))
+    lines.append('')
+    lines.append('Totals: %d seeds, %d detected, %d not detected.' % (n, y, n - y - u) + (' (%d pending)' % u if u else ''))
+    doc = doc[:doc.index(b) + len(b)] + '\n' + '\n'.join(lines) + '\n' + doc[doc.index(e):]
+    open(dp, 'w').write(doc)
